@@ -20,7 +20,7 @@ COQ_IMPORTS = "From DS Require Import Spec.Dnf Model.MonteCarlo Check.C03."
 TRUSTED = ["numpy RandomState(seed).permutation stream (an input of the model, generated independently by the harness)",
            "module attribute `time` and instance attribute `randomstate` are injectable (no source hooks)"]
 ASSUMPTIONS = ["utilities are consistent: the value on no rows is the null score",
-               "C04_exact_when_uniform is tied by correspondence only (full statement kept as a Definition)"]
+               "C04_mc_exact_when_uniform assumes v(no unit) = null, the hypothesis whose failure is finding F10"]
 WORKER_TIMEOUT = 3000
 
 
@@ -267,9 +267,10 @@ MANIFEST = {
     "text": "Proof: C04_mc_is_marginal_average / C04_one_permutation (for every utility, provenance, iteration count and "
             "EVERY sequence of sampled permutations the untruncated scores are the average of each unit's marginal "
             "contribution to the units preceding it), C04_mc_efficiency (sum = v(all) - null on every run), "
-            "C04_refuted_F10 (the first marginal is taken against null, not v(no unit): open known finding). The clause "
-            "'exact Shapley value when every permutation is sampled equally often' is kept as a full-statement "
-            "Definition and tied by correspondence only (PARTIAL). Tied to the code at API level: recorder around "
+            "C04_before_count (counting lemma: the players before p form the set S exactly |S|!(|l|-1-|S|)! times over "
+            "all permutations) and C04_mc_exact_when_uniform (every permutation sampled equally often, in any order: the "
+            "estimator IS the Shapley value), C04_refuted_F10 (the first marginal is taken against null, not v(no "
+            "unit): open known finding). Tied to the code at API level: recorder around "
             "importance.randomstate, scrambled global generators, independent RandomState(seed) stream, call history.",
     "note": "Trusted: Coq kernel + vm_compute; harness; numpy's RandomState stream is a model input. F10 printed as "
             "KNOWN-FINDING.",
